@@ -105,6 +105,9 @@ def grammar_session(draw):
     if draw(st.integers(0, 5)) == 0:
         items.append(L['STARTTLS'])        # before EHLO: refused, whatever is pipelined behind it must still be processed
     items.append(draw(st.sampled_from([L['EHLO'], L['EHLO'], L['HELO']])))
+    if cfg.auth and draw(st.integers(0, 2)) == 0:
+        # an AUTH exchange whose answers are pipelined behind the command (or arrive one by one)
+        items.append(draw(st.sampled_from([L['AUTH-login'], L['AUTH-login'], L['AUTH-plain'], L['AUTH-cancel']])))
     for _ in range(draw(st.integers(1, 3))):
         items.append(draw(st.sampled_from([L['MAIL'], L['MAIL-null'], L['mail-lower'], L['MAIL/450']])))
         for _ in range(draw(st.integers(1, 3))):
